@@ -109,7 +109,7 @@ def thorough(ck, mod, pid, fx, cg):
             ls = [l for l in rs.stdout.splitlines() if l[:1] == "S" or "as expected" in l]
             rr = subprocess.run([os.path.join(F.VERIF, "selftest", "run_mutants.py"), "--props", pid, "--refactorings"], cwd=F.VERIF, stdout=subprocess.PIPE,
                                 stderr=subprocess.STDOUT, text=True, timeout=1500)
-            lr = [l for l in rr.stdout.splitlines() if l[:1] == "R" or "as expected" in l]
+            lr = [l for l in rr.stdout.splitlines() if l[:1] in ("R", "Q") or "as expected" in l]
             ck.extra["self_validation"] = {"seeded_bad_variants": lines, "benign_variants": lb, "independent_seeds": ls, "independent_refactorings": lr,
                                            "note": "each variant is applied to a scratch copy (mktemp, removed afterwards); CAUGHT = this property's check exits 1 on the variant; SKIP = /repo no longer matches the seed's base"}
         except Exception as e:  # noqa
